@@ -31,8 +31,19 @@ func decodeLength(buf []byte, n *int) ([]byte, error) {
 	if len <= 0 {
 		return nil, errors.New("bad length")
 	}
+	if exceeds(k, buf[len:]) {
+		// Every element and every body byte that a length announces takes at
+		// least one byte of what follows: a larger length (including one that
+		// does not fit an int) is corrupt, and must not reach make or a slice
+		// expression.
+		return nil, errors.New("bad length")
+	}
 	*n = int(k)
 	return buf[len:], nil
+}
+
+func exceeds(k uint64, rest []byte) bool {
+	return k > uint64(len(rest))
 }
 
 func decodeBytes(buf []byte, body *[]byte) ([]byte, error) {
